@@ -5093,6 +5093,16 @@ set_trait_post_setattr(trait_object *trait, PyObject *value, void *closure)
         return -1;
     }
 
+    /* A property trait with a validator keeps its real setter in the
+       post_setattr slot (see setattr_validate_property). */
+    if (trait->setattr == setattr_validate_property) {
+        PyErr_SetString(
+            PyExc_ValueError,
+            "post_setattr cannot be set on a property trait that has a "
+            "validator.");
+        return -1;
+    }
+
     if (value == Py_None) {
         value = NULL;
         trait->post_setattr = NULL;
